@@ -123,8 +123,9 @@ def route_csv(tracks, wd, display):
                 nm["pos"] = list(pk)
             else:
                 nm["pos"] = list(f[pk]["value_names"])
-            for k in ("score", "tag", "ok"):
-                if k in f:
+            for k in ("score", "tag", "ok", "area", "circularity", "perimeter"):
+                if k in f and f[k].get("display_name", k) in df.columns \
+                        and f[k].get("num_values", 1) == 1:
                     nm[k] = f[k].get("display_name", k)
                     loaded.append(k)
         b_tracks = tracks_from_df(df, scale=None if t.scale is None else list(t.scale),
